@@ -73,6 +73,21 @@ type Stream interface {
 	Class(c Case, impl string) (bucket string, nontrivial bool)
 }
 
+// Isolated streams run their cases in a worker subprocess with a per-case wall-clock bound: a
+// case that kills the process (unrecovered panic on a request goroutine, fatal runtime error)
+// or hangs (Stop that never returns) is reported as such and the remaining cases continue in a
+// fresh worker.
+type Isolated interface {
+	CaseTimeout() time.Duration
+}
+
+// Tracing streams produce, besides the oracle's verdict, an event trace of the real server;
+// the model must accept it (trace inclusion).
+type Tracing interface {
+	// ModelLine turns the trace observed for the case into the driver's input line.
+	ModelLine(c Case, trace string) string
+}
+
 // lastPanicKey is set by safely() when the implementation panics.
 var lastPanicKey string
 
@@ -182,10 +197,24 @@ func runStream(s Stream, property string, seed int64, n int, thorough bool, gmod
 	impls := make([]string, len(cases))
 	keys := make([]string, len(cases))
 	lines := make([]string, len(cases))
+	if iso, ok := s.(Isolated); ok && os.Getenv("VERIF_WORKER") == "" {
+		runIsolated(s.Name(), cases, iso.CaseTimeout(), impls)
+	} else {
+		for i, c := range cases {
+			impls[i] = safely(func() string { return s.Impl(c) })
+			keys[i] = lastPanicKey
+		}
+	}
 	for i, c := range cases {
-		impls[i] = safely(func() string { return s.Impl(c) })
-		keys[i] = lastPanicKey
 		lines[i] = c.Line
+		if tr, ok := s.(Tracing); ok {
+			res, trace := impls[i], ""
+			if k := strings.Index(impls[i], "\t"); k >= 0 {
+				res, trace = impls[i][:k], impls[i][k+1:]
+			}
+			impls[i] = res
+			lines[i] = tr.ModelLine(c, trace)
+		}
 	}
 	models, err := runModel(gmodel, lines)
 	if err != nil {
@@ -199,9 +228,10 @@ func runStream(s Stream, property string, seed int64, n int, thorough bool, gmod
 		if nontrivial {
 			distinct[c.Line] = true
 		}
-		if models[i] == "unmodelled" {
+		_, tracing := s.(Tracing)
+		if models[i] == "unmodelled" || (tracing && models[i] == "no-trace") {
 			res.Skipped++
-		} else if models[i] != impls[i] {
+		} else if (tracing && models[i] != "accept") || (!tracing && models[i] != impls[i]) {
 			res.DisagreementCount++
 			if len(res.Disagreements) < 20 {
 				res.Disagreements = append(res.Disagreements, Disagreement{c, clip(impls[i]), clip(models[i])})
@@ -265,4 +295,138 @@ func sortedKeys(m map[string]int) []string {
 	}
 	sort.Strings(ks)
 	return ks
+}
+
+
+// ---- worker subprocess protocol -------------------------------------------------------------------
+
+type workerMsg struct {
+	I     int    `json:"i"`
+	Begin bool   `json:"begin,omitempty"`
+	Impl  string `json:"impl,omitempty"`
+}
+
+// workerMain runs inside the child: reads cases as JSON lines, answers one JSON line per case.
+func workerMain(s Stream) {
+	in := bufio.NewScanner(os.Stdin)
+	in.Buffer(make([]byte, 1<<20), 1<<28)
+	out := bufio.NewWriter(os.Stdout)
+	i := 0
+	for in.Scan() {
+		var c Case
+		if err := json.Unmarshal(in.Bytes(), &c); err != nil {
+			continue
+		}
+		b, _ := json.Marshal(workerMsg{I: i, Begin: true})
+		out.Write(b)
+		out.WriteByte('\n')
+		out.Flush()
+		impl := safely(func() string { return s.Impl(c) })
+		if impl == "panic" {
+			impl = "panic " + lastPanicKey
+		}
+		b, _ = json.Marshal(workerMsg{I: i, Impl: impl})
+		out.Write(b)
+		out.WriteByte('\n')
+		out.Flush()
+		i++
+	}
+}
+
+// runIsolated drives worker subprocesses over the cases, restarting after a death or timeout.
+func runIsolated(stream string, cases []Case, perCase time.Duration, impls []string) {
+	next := 0
+	for next < len(cases) {
+		cmd := exec.Command(os.Args[0], "-worker", "-stream", stream)
+		cmd.Env = append(os.Environ(), "VERIF_WORKER=1")
+		stdin, _ := cmd.StdinPipe()
+		stdout, _ := cmd.StdoutPipe()
+		var stderr bytes.Buffer
+		cmd.Stderr = &stderr
+		if err := cmd.Start(); err != nil {
+			for ; next < len(cases); next++ {
+				impls[next] = "worker-start-failed"
+			}
+			return
+		}
+		base := next
+		go func() {
+			for _, c := range cases[base:] {
+				b, _ := json.Marshal(c)
+				stdin.Write(b)
+				stdin.Write([]byte("\n"))
+			}
+			stdin.Close()
+		}()
+		msgs := make(chan workerMsg, 16)
+		go func() {
+			sc := bufio.NewScanner(stdout)
+			sc.Buffer(make([]byte, 1<<20), 1<<28)
+			for sc.Scan() {
+				var m workerMsg
+				if json.Unmarshal(sc.Bytes(), &m) == nil {
+					msgs <- m
+				}
+			}
+			close(msgs)
+		}()
+		dead := false
+		for !dead && next < len(cases) {
+			timer := time.NewTimer(perCase)
+			select {
+			case m, ok := <-msgs:
+				timer.Stop()
+				if !ok {
+					// worker died while running case `next`
+					tail := stderr.String()
+					if len(tail) > 1500 {
+						tail = tail[len(tail)-1500:]
+					}
+					key := "process-died"
+					switch {
+					case strings.Contains(tail, "stack overflow"):
+						key = "process-died:stack-overflow"
+					case strings.Contains(tail, "panic:"):
+						key = "process-died:panic"
+					case strings.Contains(tail, "fatal error:"):
+						key = "process-died:fatal"
+					case strings.Contains(tail, "DATA RACE"):
+						key = "process-died:race"
+					}
+					impls[next] = key + " " + strings.ReplaceAll(firstLines(tail, 6), "\n", " | ")
+					next++
+					dead = true
+				} else if !m.Begin {
+					impls[base+m.I] = m.Impl
+					next = base + m.I + 1
+				}
+			case <-timer.C:
+				impls[next] = "timeout"
+				next++
+				_ = cmd.Process.Kill()
+				dead = true
+			}
+		}
+		_ = cmd.Process.Kill()
+		_ = cmd.Wait()
+	}
+}
+
+func firstLines(s string, n int) string {
+	// the interesting part of a Go crash is at the start of the dump
+	idx := strings.Index(s, "panic:")
+	if k := strings.Index(s, "fatal error:"); k >= 0 && (idx < 0 || k < idx) {
+		idx = k
+	}
+	if k := strings.Index(s, "WARNING: DATA RACE"); k >= 0 && (idx < 0 || k < idx) {
+		idx = k
+	}
+	if idx > 0 {
+		s = s[idx:]
+	}
+	l := strings.SplitN(s, "\n", n+1)
+	if len(l) > n {
+		l = l[:n]
+	}
+	return strings.Join(l, "\n")
 }
